@@ -129,9 +129,10 @@ def run(rep, pdb, tier):
         oku = oku and qi is not None and qi[0] == "call" and str(qi[1]).endswith("::empty") and ri == P(0)
     rep.add("update-pair", "one iteration does q <- q + t and r <- r - t*v with the same t and the same v (the parameter); q starts empty and r as self.clone()", oku, qa[0].node if qa else w, "")
     # ---- the degree drops by construction, not by an exact-zero test of a computed residue
-    rule = ("after r <- r - t*v the leading coefficient of r (which cancels by construction) is removed explicitly — unconditionally, or when it is absorbed by the "
-            "coefficient it was computed from (lead + residue == lead) — before trim: a rounding residue must not be able to keep the degree from dropping and stall the loop")
-    okdd, det = False, "no explicit removal of the cancelled leading coefficient: termination relies on `trim` finding an exactly-zero residue"
+    rule = ("after r <- r - t*v the leading coefficient of r (which cancels by construction) is removed explicitly and unconditionally "
+            "(cleared or popped) before trim: a rounding residue must not be able to keep the degree from dropping and stall the loop; a value test on the residue "
+            "(exact zero, or absorption `lead + residue == lead`, which is component-wise for Complex) does not guarantee that")
+    okdd, det = False, "no unconditional removal of the cancelled leading coefficient: termination relies on a value test of a computed rounding residue"
     if ra and len(ra) == 1:
         upd = ra[0]
         Rn = F(rvar, "coeffs")
@@ -143,23 +144,12 @@ def run(rep, pdb, tier):
             idx_ok = e.index == top or (e.index[0] == "var" and ctx.def_term(e.index) == top)
             before_trim = bool(trims) and all(_pos(e.node) < _pos(t_) for t_ in trims if _pos(t_) > _pos(upd.node))
             ifs = [a for a in ancestors(e.node) if a.get("k") == "If" and any(x is w for x in ancestors(a))]
+            # the clear must be unconditional: an absorption test `lead + residue == lead` is not implied for
+            # element types whose equality is component-wise (Complex: the residue is absorbed per component only
+            # when both components of lead are large), so the stall survives it (finding 9)
             guard_ok = not ifs
-            if len(ifs) == 1:
-                at = cond_atoms(ctx, ifs[0]["cond"], True)
-                # lead + r[top] == lead  (either operand order), lead read from r before the update
-                if len(at) == 1 and at[0][0] == "cmp" and at[0][1] == "==":
-                    a_, b_ = at[0][2], at[0][3]
-                    for s_, l_ in ((a_, b_), (b_, a_)):
-                        if s_[0] == "op" and s_[1] == "+" and l_ in (s_[2], s_[3]):
-                            other = s_[3] if s_[2] == l_ else s_[2]
-                            idx2 = other[2] if other[0] == "idx" and other[1] == Rn else None
-                            if idx2 is not None and (idx2 == top or (idx2[0] == "var" and ctx.def_term(idx2) == top)):
-                                ld = ctx.def_term(l_) if l_[0] == "var" else None
-                                lb = ctx.binds.get(l_[1]) if l_[0] == "var" else None
-                                if ld is not None and ld[0] == "idx" and ld[1] == Rn and lb is not None and _pos(lb.node) < _pos(upd.node) and any(x is w for x in ancestors(lb.node)):
-                                    guard_ok = True
             if idx_ok and before_trim and guard_ok:
-                okdd, det = True, "leading coefficient cleared explicitly (%s) before trim" % ("unconditionally" if not ifs else "under the absorption test lead + residue == lead")
+                okdd, det = True, "leading coefficient cleared explicitly and unconditionally before trim"
         if pops and not okdd:
             okdd, det = True, "leading coefficient popped explicitly"
     rep.add("degree-drops", rule, okdd, ra[0].node if ra else w, det)
